@@ -19,6 +19,7 @@ import (
 	"context"
 	"fmt"
 	"io"
+	"math/rand/v2"
 	"net"
 	"net/netip"
 	"os"
@@ -2062,4 +2063,82 @@ func c13GenerationsConcurrent(m *vk.Monitor) {
 		m.Distinct(fmt.Sprintf("c-conc|shared%v|a%d|t%v|c%d|closed%v|owner%d|n%d", shared, adopters, withTrack, closeHow, closed, owner, len(tuples)))
 		c13Report(m, reported, "conc/", c13Dedup(vs), h, map[string]any{"round": round, "kind": "generations-concurrent", "shared_tracker": shared, "history": hist})
 	}
+}
+
+// c13EndpointNegativeCacheExpiry: a failed dial is remembered for a short while; when that while
+// is over (the marker's own deadline has passed, the janitor has not swept it yet) the next packet
+// of the key must get a fresh dial, never the marker. "Time passes" is modelled by moving the
+// marker's deadline into the past, which is exactly what the fast path of GetOrCreate compares.
+func c13EndpointNegativeCacheExpiry(m *vk.Monitor) {
+	seedRng := vk.NewRand(0xC13E)
+	reported := map[string]bool{}
+	var repMu sync.Mutex
+	rounds := vk.Scale(48, 1200)
+	sem := make(chan struct{}, 12)
+	var wg sync.WaitGroup
+	for round := 0; round < rounds && m.Violations() < 5; round++ {
+		rng := rand.New(rand.NewPCG(seedRng.Uint64(), uint64(round)))
+		round := round
+		sem <- struct{}{}
+		wg.Add(1)
+		go func() {
+			defer wg.Done()
+			defer func() { <-sem }()
+			h := c13NewEP(10 * time.Minute)
+			k := rng.IntN(len(h.keys))
+			nfail := 1 + rng.IntN(2)
+			for i := 0; i < nfail; i++ {
+				h.script[k] = append(h.script[k], c13Outcome{Kind: c13DialEOF})
+			}
+			var vs []c13Verdict
+			for i := 0; i < nfail; i++ {
+				c := h.goc(k, 0, "first-packet")
+				if c.Err == "" {
+					m.Count("b_negexp_dial_did_not_fail", 1)
+					break
+				}
+				// inside the remembered while: refused without a dial (judged by the history oracle)
+				if rng.IntN(2) == 0 {
+					h.goc(k, 0, "inside-negative-cache")
+				}
+				// the while is over
+				shard := h.pool.shardFor(h.keys[k])
+				shard.mu.Lock()
+				mk := shard.pool[h.keys[k]]
+				shard.mu.Unlock()
+				if mk == nil || !mk.failed.Load() {
+					m.Count("b_negexp_marker_already_swept", 1)
+				} else {
+					mk.expiresAtNano.Store(time.Now().Add(-time.Millisecond).UnixNano())
+					m.Count("b_negexp_marker_expired_in_place", 1)
+				}
+				before := h.dialsStarted.Load()
+				c2 := h.goc(k, 0, "after-negative-cache-expired")
+				m.Eval(1)
+				if c2.Marker || (c2.ue != nil && c2.ue.failed.Load()) {
+					vs = append(vs, c13Verdict{"endpoint/failed-marker-handed-out", fmt.Sprintf("call %d on key %d returned the expired negative-cache marker as an endpoint", c2.Seq, c2.Key), map[string]any{"call": c2}})
+					break
+				}
+				if h.dialsStarted.Load() == before && c2.Err == "" {
+					vs = append(vs, c13Verdict{"endpoint/no-redial-after-negative-cache-expired", fmt.Sprintf("call %d on key %d succeeded without a new dial after the failed dial's remembered while was over", c2.Seq, c2.Key), map[string]any{"call": c2}})
+					break
+				}
+				if c2.Err == "" {
+					_ = h.write(c2)
+					break
+				}
+			}
+			fin, inc := h.finish()
+			if inc == "" {
+				vs = append(vs, fin...)
+			}
+			vs = append(vs, h.checkHistory(true)...)
+			m.Count("b_negexp_rounds", 1)
+			m.Distinct(fmt.Sprintf("negexp|key%d|fails%d", k, nfail))
+			repMu.Lock()
+			c13Report(m, reported, "negexp/", c13Dedup(vs), h, map[string]any{"round": round, "kind": "negative-cache-expiry"})
+			repMu.Unlock()
+		}()
+	}
+	wg.Wait()
 }
